@@ -9,9 +9,9 @@ package f3
 // ---- errors ----
 
 //@ func fmt.Errorf
-//@   trusted fmt.Errorf returns a non-nil error
+//@   trusted fmt.Errorf returns a new non-nil error (not one of the io sentinels)
 //@   pure
-//@   ensures result != nil
+//@   ensures result != nil && result != io.EOF && result != io.ErrUnexpectedEOF
 
 //@ func errors.New
 //@   trusted errors.New returns a non-nil error
@@ -177,3 +177,14 @@ package f3
 //@   trusted os.OpenFile returns a file exactly when it returns no error
 //@   pure
 //@   ensures (result1 == nil) == (result0 != nil)
+
+//@ func encoding/binary.PutUvarint
+//@   trusted binary.PutUvarint writes 1..10 bytes, seven value bits per byte
+//@   modifies buf[]
+//@   requires len(buf) >= 10 || x < 72057594037927936
+//@   ensures 1 <= result && result <= 10 && result <= len(buf)
+
+//@ func bytes.(*Buffer).Len
+//@   trusted a bytes.Buffer holds at most 2^47 bytes
+//@   pure
+//@   ensures 0 <= result && result <= 140737488355328
